@@ -136,8 +136,12 @@ def dict_by_key(fi: FuncInfo, key_text: str) -> Optional[Tuple[Dict[str, str], s
     from ..core import Repo as _R  # noqa
 
     for n in au.walk_no_nested(fi.node):
+        tbl = None
         if isinstance(n, ast.Subscript) and isinstance(n.ctx, ast.Load) and ast.unparse(n.slice) == key_text:
             tbl = n.value
+        elif isinstance(n, ast.Call) and isinstance(n.func, ast.Attribute) and n.func.attr == "get" and n.args and ast.unparse(n.args[0]) == key_text and (len(n.args) == 1 or ast.unparse(n.args[1]) == "None"):
+            tbl = n.func.value  # `<table>.get(<key>)`: the same lookup, a miss is None instead of KeyError
+        if tbl is not None:
             lit = None
             if isinstance(tbl, ast.Dict):
                 lit = tbl
